@@ -220,7 +220,9 @@ VDecodeSuffix(ev) ==
   LET opts == OptsOf(ev)
       spa == DecodeMessage(ev.in, opts)
       spb == DecodeMessage(ev.in \o ev.suffix, opts)
-      declared == spa.res.t = "ok" /\ (spa.res.v.k = "Control" \/ spa.res.v.length # << >>)
+      \* "forall accepted b with declared length": accepted by the IMPLEMENTATION, as a control message or a data
+      \* message with a Length field
+      declared == Finished(ev.out_a) /\ ev.out_a.t = "ok" /\ (ev.out_a.v.k = "Control" \/ ev.out_a.v.length # << >>)
       ra == [out |-> ev.out_a, rem |-> ev.rem_a]
       rb == [out |-> ev.out_b, rem |-> ev.rem_b - Len(ev.suffix)]
   IN MsgOutcomeTags(spa, ev.out_a, ev.rem_a) \o MsgOutcomeTags(spb, ev.out_b, ev.rem_b)
